@@ -197,7 +197,7 @@ V('M-short-tag-malformed', ['C06'], 'A3.trunc', BD, "                           
   "                                raise error.PyAsn1Error(\n                                    'Short octet stream on long tag decoding'\n                                )")
 V('M-del-len-check', ['C07'], 'C07.len', BD, "                    bytesRead = substrate.tell() - original_position\n                    if bytesRead != length:\n                        raise PyAsn1Error(\n                            \"Read %s bytes instead of expected %s.\" % (bytesRead, length))\n", "")
 V('M-eoo-rewind-1', ['C07'], 'C07.eoo', BD, "                substrate.seek(-2, os.SEEK_CUR)", "                substrate.seek(-1, os.SEEK_CUR)")
-V('M-drop-null-check', ['C07', 'C08'], 'A2.drop', BD, "        if chunk:\n            raise error.PyAsn1Error('Unexpected %d-octet substrate for Null' % length)\n\n", "")
+V('M-drop-null-check', ['C07', 'C08'], ('A2.drop', 'W.content'), BD, "        if chunk:\n            raise error.PyAsn1Error('Unexpected %d-octet substrate for Null' % length)\n\n", "")
 V('M-tail-other-stream', ['C07'], 'A2.oneshot', BD, "                tail = next(readFromStream(substrate))", "                tail = next(readFromStream(streamingDecoder._substrate, 0))")
 
 # ---- malformed input (C08 C10 C16 C18)
@@ -274,7 +274,7 @@ V('M-global-counter', ['C12'], 'A5.census', BE, "    def __call__(self, value, a
 # ---- containers (C19)
 V('M-choice-clear', ['C19'], 'A10.companion', UN, "    def clear(self):\n        self._currentIdx = None\n        return Set.clear(self)", "    def clear(self):\n        return Set.clear(self)")
 V('M-sort-list', ['C19'], 'A10.field', UN, "        self._componentValues = dict(\n            enumerate(sorted(self._componentValues.values(),\n                             key=key, reverse=reverse)))", "        self._componentValues = sorted(self._componentValues.values(),\n                                       key=key, reverse=reverse)")
-V('M-stopiteration', ['C19', 'C08'], 'A10.pep479', UN, "        if self._currentIdx is None:\n            return\n        yield self.componentType[self._currentIdx].getName()", "        if self._currentIdx is None:\n            raise StopIteration\n        yield self.componentType[self._currentIdx].getName()")
+V('M-stopiteration', ['C19', 'C08'], ('A10.pep479', 'A3.raise'), UN, "        if self._currentIdx is None:\n            return\n        yield self.componentType[self._currentIdx].getName()", "        if self._currentIdx is None:\n            raise StopIteration\n        yield self.componentType[self._currentIdx].getName()")
 V('M-idx-before-set', ['C19'], 'A10.single', UN, "        oldIdx = self._currentIdx\n        Set.setComponentByPosition(self, idx, value, verifyConstraints, matchTags, matchConstraints)\n        self._currentIdx = idx", "        oldIdx = self._currentIdx\n        self._currentIdx = idx\n        Set.setComponentByPosition(self, idx, value, verifyConstraints, matchTags, matchConstraints)")
 V('M-eq-return-value', ['C19'], 'A10.schema', BA, "    def __hash__(self):\n        return hash(self._value)", "    def __index__(self):\n        return self._value\n\n    def __hash__(self):\n        return hash(self._value)")
 
@@ -282,6 +282,43 @@ V('M-eq-return-value', ['C19'], 'A10.schema', BA, "    def __hash__(self):\n    
 V('M-minutes-seconds', ['C20'], 'A11.width', US, "seconds % 3600 // 60)", "seconds % 3600)")
 V('M-sign-unsigned', ['C20'], 'A11.sign', US, "            seconds = offset.days * 86400 + offset.seconds", "            seconds = offset.seconds")
 V('M-comma-ok', ['C20'], 'A11.canon', CE, "        if self.COMMA_CHAR in numbers:\n            raise error.PyAsn1Error('Comma in fractions disallowed: %r' % value)\n\n", "")
+
+
+
+# ---- variants added with the rules of seeded-change round 1
+V('M-next-read', ['C05', 'C06'], 'A2.next', BD, "            for trailingBits in readFromStream(substrate, 1, options):\n                if isinstance(trailingBits, SubstrateUnderrunError):\n                    yield trailingBits\n\n            trailingBits = ord(trailingBits)",
+  "            trailingBits = ord(next(readFromStream(substrate, 1, options)))")
+V('M-cache-long-tags', ['C07', 'C12', 'C13', 'C16'], 'A5.cachekey', BD, "                    if isShortTag:\n                        # cache short tags\n                        tagCache[firstOctet] = lastTag", "                    tagCache[firstOctet] = lastTag")
+V('M-enc-tag-fastpath', ['C01', 'C03', 'C13'], 'W.enc', BE, "        if tagId < 31:\n            return encodedTag | tagId,\n\n        else:", "        if tagId < 31:\n            return encodedTag | tagId,\n\n        elif tagId <= 0xff:\n            return encodedTag | 0x1F, tagId\n\n        else:")
+V('M-prepend-truthy', ['C01', 'C09'], 'W.bits', UN, "        value = SizedInteger(integer.from_bytes(value) >> padding).setBitLength(len(value) * 8 - padding)\n\n        if prepend is not None:", "        value = SizedInteger(integer.from_bytes(value) >> padding).setBitLength(len(value) * 8 - padding)\n\n        if prepend:")
+V('M-real-no-norm', ['C02', 'C03', 'C04'], 'W.real', BE, "            if encbase == 2:\n                while m & 0x1 == 0:\n                    m >>= 1\n                    e += 1\n\n            elif encbase == 8:", "            if encbase == 8:")
+V('M-cache-truncate', ['C07', 'C11'], 'A12.tail', ST, "            self._cache = io.BytesIO(self._cache.read())\n", "            self._cache.seek(0)\n            self._cache.truncate()\n")
+V('M-schemaless-one-tag', ['C16'], 'C16.tags', BD, "            tagSet=tag.TagSet(protoComponent.tagSet.baseTag, *tagSet.superTags)", "            tagSet=tag.TagSet(protoComponent.tagSet.baseTag, *tagSet.superTags[-1:])")
+V('M-native-none', ['C17'], 'C17.native', 'pyasn1/codec/native/decoder.py', "            if field in pyObject:\n                asn1Value[field]", "            if field in pyObject and pyObject[field] is not None:\n                asn1Value[field]")
+V('M-wraptype-get', ['C18', 'C12', 'C01'], 'A5.optleak', BE, "        wrapType = options.pop('wrapType', None)", "        wrapType = options.get('wrapType')")
+V('M-any-yield-before-eoo', ['C18'], 'A8.dec', BD, "        if not isTagged:\n            # the header of the untagged value went in, so does its\n            # end-of-octets sentinel (consumed by the item decoder)\n            chunk += EOO_SENTINEL\n\n        if isCollecting:\n            yield chunk\n",
+  "        if isCollecting:\n            yield chunk\n            return\n\n        if not isTagged:\n            chunk += EOO_SENTINEL\n\n        if isCollecting:\n            yield chunk\n")
+V('M-empty-constructed', ['C15', 'C09'], 'W.content', BD, "            return\n\n        if tagSet[0].tagFormat == tag.tagFormatSimple:  # XXX what tag to check?\n            for chunk in readFromStream(substrate, length, options):",
+  "            return\n\n        if not length:\n            yield self._createComponent(asn1Spec, tagSet, null, **options)\n\n            return\n\n        if tagSet[0].tagFormat == tag.tagFormatSimple:  # XXX what tag to check?\n            for chunk in readFromStream(substrate, length, options):")
+V('M-trim-start', ['C20'], 'A11.trim', CE, "            searchIndex = len(numbers) - 1\n", "            searchIndex = min(numbers.index(self.DOT_CHAR) + 3, len(numbers) - 1)\n")
+V('M-iter-probe-first', ['C05', 'C06', 'C07', 'C08'], 'A2.iter', BD, "        while True:\n            for asn1Object in self._singleItemDecoder(\n                    self._substrate, self._asn1Spec, **self._options):\n                yield asn1Object\n\n            for chunk in isEndOfStream(self._substrate):\n                if isinstance(chunk, SubstrateUnderrunError):\n                    yield chunk\n\n            if chunk:\n                break\n",
+  "        while True:\n            for chunk in isEndOfStream(self._substrate):\n                if isinstance(chunk, SubstrateUnderrunError):\n                    yield chunk\n\n            if chunk:\n                break\n\n            for asn1Object in self._singleItemDecoder(\n                    self._substrate, self._asn1Spec, **self._options):\n                yield asn1Object\n")
+V('M-short-read-eos', ['C05', 'C06'], 'A3.trunc', ST, "            # behave like a non-blocking stream\n            yield error.SubstrateUnderrunError(context=context)", "            if len(received) == 1:\n                raise error.EndOfStreamError(context=context)\n\n            # behave like a non-blocking stream\n            yield error.SubstrateUnderrunError(context=context)")
+V('M-latch', ['C01', 'C02', 'C03'], 'A5.latch', CE, "            if namedType:\n                options.update(ifNotEmpty=namedType.isOptional)", "            if namedType and namedType.isOptional:\n                options.update(ifNotEmpty=True)")
+V('M-attr-tagmap', ['C08'], 'A3.attr', BD, "                    '%s not in asn1Spec: %r' % (tagSet, asn1Spec)", "                    '%s not in asn1Spec: %s' % (tagSet, asn1Spec is None and '<none>' or asn1Spec.prettyPrintType())")
+V('M-choice-empty', ['C08', 'C10'], 'A13.choice', BD, "        if not len(asn1Object):\n            raise error.PyAsn1Error(\n                'No alternative inside the explicitly tagged CHOICE %s' % (tagSet,))\n\n", "")
+V('M-read-overflow', ['C08'], 'A3.size', ST, "        try:\n            received = substrate.read(size)\n\n        except OverflowError:\n            raise error.PyAsn1Error(\n                'Unsupported substrate size %s' % (size,), context=context)\n", "        received = substrate.read(size)\n")
+V('M-nan', ['C08'], 'A3.partial', UN, "            elif value != value:\n                raise error.PyAsn1Error(\n                    'Bad real value syntax: %s' % (value,)\n                )\n", "")
+V('M-pad-guard', ['C08'], 'W.bits', UN, "        if padding > len(value) * 8:", "        if padding > len(value) * 8 + 8:")
+V('M-log-continue', ['C12'], 'A5.log', BE, "                    if LOG:\n                        LOG('not encoding DEFAULT component %r' % (namedType,))\n                    continue\n\n                if omitEmptyOptionals:\n                    options.update(ifNotEmpty=namedType.isOptional)\n\n                componentSpec",
+  "                    if LOG:\n                        LOG('not encoding DEFAULT component %r' % (namedType,))\n                        continue\n\n                if omitEmptyOptionals:\n                    options.update(ifNotEmpty=namedType.isOptional)\n\n                componentSpec")
+V('M-sortkey-static', ['C17', 'C03'], 'A9.dyn', DE, "                # TODO: support nested CHOICE ordering\n                return asn1Spec[names[0]].tagSet[-1:]", "                return encoder.SetEncoder._componentSortKey(componentAndType)")
+V('M-vmap-ancestry', ['C14', 'C10'], 'C14.vmap', CO, "            constraintSet._valueMap.update(self._valueMap)\n", "")
+V('M-clone-enumerate', ['C04', 'C19'], 'C04.clone', UN, "    def _cloneComponentValues(self, myClone, cloneValueFlag):\n        for idx, componentValue in self._componentValues.items():", "    def _cloneComponentValues(self, myClone, cloneValueFlag):\n        for idx, componentValue in enumerate(self._componentValues.values()):")
+V('M-isdeterministic', ['C09', 'C10', 'C01', 'C02'], 'A6.spec', BD, "            isSetType = asn1Object.typeId == univ.Set.typeId\n            isDeterministic = not isSetType and not namedTypes.hasOptionalOrDefault", "            isSetType = asn1Object.typeId == univ.Set.typeId\n            isDeterministic = not namedTypes.hasOptionalOrDefault")
+V('M-required-weaker', ['C10'], ('C10.req', 'A6.spec'), BD, "            if namedTypes:\n                if not namedTypes.requiredComponents.issubset(seenIndices):\n                    raise error.PyAsn1Error(\n                        'ASN.1 object %s has uninitialized '\n                        'components' % asn1Object.__class__.__name__)\n\n                if namedTypes.hasOpenTypes:",
+  "            if namedTypes:\n                if (idx < len(namedTypes) and\n                        not namedTypes.requiredComponents.issubset(seenIndices)):\n                    raise error.PyAsn1Error(\n                        'ASN.1 object %s has uninitialized '\n                        'components' % asn1Object.__class__.__name__)\n\n                if namedTypes.hasOpenTypes:")
+V('M-add-dedupe', ['C14', 'C10'], 'C14.vmap', CO, "    def __add__(self, value):\n        return self._derive(self._values + (value,))", "    def __add__(self, value):\n        if value in self._values:\n            return self\n\n        return self._derive(self._values + (value,))")
 
 
 # --------------------------------------------------------------------------- runner
@@ -385,7 +422,8 @@ def run_for_property(pid, repo=None, jobs=None):
                 continue
             vrc, viol, known = info
             new = [x for x in viol if x not in base[1]]
-            hit = [x for x in new if x[0].startswith(v['rule'])]
+            rules = v['rule'] if isinstance(v['rule'], (tuple, list)) else (v['rule'],)
+            hit = [x for x in new if any(x[0].startswith(r_) for r_ in rules)]
             if hit:
                 nfire += 1
                 out_lines.append('SELFTEST %s %-26s fires: %s in %s' % (pid, vid, hit[0][0], hit[0][1]))
